@@ -290,7 +290,7 @@ def handle_filters_by_name(ctx):
              "all() collects iter(self)" if ok else "all() does not collect the handle's own iterator", al.loc())
 
 
-@rule("C10.R4", ["C10"], min_instances=1, design="3.10")
+@rule("C10.R4", ["C10", "C14"], min_instances=1, design="3.10")
 def handles_are_stateless(ctx):
     """Measurement assigns self.* only in __init__, and only its name and database reference."""
     mc = ctx.prog.cls("Measurement")
@@ -309,7 +309,7 @@ def handles_are_stateless(ctx):
                         elif not (isinstance(n, ast.Assign) and isinstance(n.value, ast.Name)
                                   and n.value.id in m.params()):
                             bad.append(f"__init__ stores `{norm(n.value, 40)}` in self.{base.attr} (cached state)")
-    yield Ob("C10.R4", ["C10"], "Measurement | no cached state", not bad,
+    yield Ob("C10.R4", ["C10", "C14"], "Measurement | no cached state", not bad,
              "; ".join(bad) if bad else "a handle holds only its name and the database reference, so it cannot go stale",
              mc.methods["__init__"].loc())
     # the registry of handles is cleared when a measurement is dropped
